@@ -412,7 +412,7 @@ contract(
     ghost={"vars": {"emitted": "=None", "n_emitted": "=0", "emitted_code": "=None", "padded_arg": "=None"}},
     ensures={
         # C03: a Replace touches exactly the text of its own node
-        "replaces-exactly-its-own-node [C03,C10,C11,C12,C02,C01]": "n_emitted == 1 and emitted == text_positions(self.node) and padded_arg == False",
+        "replaces-exactly-its-own-node [C03,C10,C11,C12,C02,C01,C18]": "n_emitted == 1 and emitted == text_positions(self.node) and padded_arg == False",
         "writes-its-own-code [C03,C01]": "emitted_code == self.new_code",
     },
     frame=[],
